@@ -88,6 +88,26 @@ def check_scalings(ctx: Ctx) -> None:
     ok = any(isinstance(x, ast.Raise) or (isinstance(x, ast.Call) and dotted(x.func) == "ResidualScaling") for b in else_body for x in ast.walk(b))
     ctx.ob("6.1-exhaustive", con, ok, "the fall-through branch of the scaling dispatch must raise for an unknown scaling", node=chain, stmt="fall-through raises")
     ctx.floor("6.1-exhaustive", 6)
+    # the sub-residual scaling monitors EVERY coupling: a coupling whose first sub-residual is zero is scaled by 1, it is
+    # not left out of the criterion (it may move later, e.g. in a ring of couplings solved by Jacobi iterations)
+    from gv.props.shared import literal_facts
+
+    body = handled.get("INITIAL_SUBRESIDUAL_NORM") or []
+    cfgf = cfg_of(f)
+    apps = [c for b in body for c in ast.walk(b) if isinstance(c, ast.Call) and isinstance(c.func, ast.Attribute) and c.func.attr == "append" and isinstance(c.func.value, ast.Name)]
+    comps = [c for b in body for c in ast.walk(b) if isinstance(c, (ast.ListComp, ast.GeneratorExp))]
+    ok = bool(apps) or bool(comps)
+    for c in apps:
+        if not cfgf.has(c):
+            continue
+        for k_ in literal_facts(cfgf, cfgf.node_of(c)):
+            if "norm" in k_ and "scaling_data" not in k_:
+                ok = False
+    for c in comps:
+        if any(g_.ifs for g_ in c.generators):
+            ok = False
+    dflt = [c for b in body for c in ast.walk(b) if isinstance(c, ast.Call) and dotted(c.func) in ("max", "np_max", "amax") and any(k.arg in ("default", "initial") for k in c.keywords)]
+    ctx.ob("6.1-every-coupling", con, ok and not dflt, "with the initial sub-residual scaling every coupling takes part in the stop criterion: the list of (slice, initial norm) is filled for every slice, a zero initial norm being replaced by 1; filtering on the norm (or a default for an empty maximum) lets the MDA stop while an unmonitored coupling is still moving", node=(apps or comps or [chain])[0], stmt="every coupling slice is monitored")
 
 
 def _is_copy_of_live(e: ast.AST) -> bool:
